@@ -79,10 +79,12 @@ impl SdoExpedited {
 /// headers decoded from the wire respect their declared bit widths (checked per type by the C19 harnesses)
 pub trait CoeServiceRequest: Sized {
     spec fn wf(&self) -> bool;
+    /// the mailbox counter the request carries
+    spec fn ctr(&self) -> u8;
 }
-impl CoeServiceRequest for SdoNormal { open spec fn wf(&self) -> bool { self.sdo_header.size <= 3 } }
-impl CoeServiceRequest for SdoExpedited { open spec fn wf(&self) -> bool { self.sdo_header.size <= 3 } }
-impl CoeServiceRequest for SdoSegmented { open spec fn wf(&self) -> bool { self.sdo_header.segment_data_size <= 7 } }
+impl CoeServiceRequest for SdoNormal { open spec fn wf(&self) -> bool { self.sdo_header.size <= 3 } open spec fn ctr(&self) -> u8 { self.header.counter } }
+impl CoeServiceRequest for SdoExpedited { open spec fn wf(&self) -> bool { self.sdo_header.size <= 3 } open spec fn ctr(&self) -> u8 { self.header.counter } }
+impl CoeServiceRequest for SdoSegmented { open spec fn wf(&self) -> bool { self.sdo_header.segment_data_size <= 7 } open spec fn ctr(&self) -> u8 { self.header.counter } }
 
 /*@type file=src/mailbox/coe/headers.rs name=SdoInfoOpCode derive="Clone, Copy, PartialEq, Eq, Debug" @*/
 /*@type file=src/mailbox/coe/headers.rs name=SdoInfoHeader derive="Clone, Copy, PartialEq, Eq, Debug" @*/
@@ -276,17 +278,22 @@ impl<'a, T> EnumIter<'a, T> {
 }
 
 /// the CoE view of a SubDevice: the device side is `mailbox_write_read`, which may answer ANYTHING
-pub struct Coe { pub _p: u8 }
+/// (`fresh`: ghost - the counter value drawn by the last mailbox_counter() call and not yet used by a request.  C15 "every request
+/// carries a mailbox counter cycling through 1..7": each exchange must carry a counter drawn FOR IT - the draw advances the cycle
+/// (Kani group mbx), so a value used for two requests repeats a counter, which a SubDevice discards as a duplicate)
+pub struct Coe { pub _p: u8, pub fresh: Ghost<Option<u8>> }
 impl Coe {
-    /// real body: SubDevice::mailbox_counter (fetch_update on an AtomicU8) - Kani group `mbx` proves 1..=7
+    /// real body: SubDevice::mailbox_counter (fetch_update on an AtomicU8) - Kani group `mbx` proves 1..=7 and the cycle
     #[verifier::external_body]
-    pub fn mailbox_counter(&self) -> (r: u8)
-        ensures 1 <= r <= 7
+    pub fn mailbox_counter(&mut self) -> (r: u8)
+        ensures 1 <= r <= 7, final(self).fresh@ == Some(r)
     { unimplemented!() }
 
     #[verifier::external_body]
-    pub async fn mailbox_write_read<R: CoeServiceRequest>(&self, request: R) -> (r: Result<(R, ReceivedPdu), Error>)
-        ensures r is Ok ==> (r->Ok_0).0.wf() && exchanged(request) && replied(request, (r->Ok_0).0, (r->Ok_0).1.data())
+    pub async fn mailbox_write_read<R: CoeServiceRequest>(&mut self, request: R) -> (r: Result<(R, ReceivedPdu), Error>)
+        requires old(self).fresh@ == Some(request.ctr())       // the request carries a counter drawn for it and not used before
+        ensures final(self).fresh@ is None,
+            r is Ok ==> (r->Ok_0).0.wf() && exchanged(request) && replied(request, (r->Ok_0).0, (r->Ok_0).1.data())
     { unimplemented!() }
 
     /// the device's response mailbox: ANY bytes
@@ -307,13 +314,13 @@ impl Coe {
     ensures cr == Error::Internal
 @*/
 
-/*@fn file=src/mailbox/coe/mod.rs impl="impl<'maindevice, S> Coe<'maindevice, S>" name=sdo_read_expedited subst="self.subdevice.mailbox_counter()=>self.mailbox_counter()@@impl Into<SubIndex>=>SubIndex@@let sub_index = sub_index.into();=>@@T: SdoExpeditedPayload=>T: EtherCrabWireReadSized" props=C15,C16
+/*@fn file=src/mailbox/coe/mod.rs impl="impl<'maindevice, S> Coe<'maindevice, S>" name=sdo_read_expedited subst="&self=>&mut self@@self.subdevice.mailbox_counter()=>self.mailbox_counter()@@impl Into<SubIndex>=>SubIndex@@let sub_index = sub_index.into();=>@@T: SdoExpeditedPayload=>T: EtherCrabWireReadSized" props=C15,C16
     // SdoExpeditedPayload is a crate-private marker implemented only for u8, u16, u32 and the 4-byte PDO `Mapping`
     requires T::PACKED_LEN <= 4
     ensures true
 @*/
 
-/*@fn file=src/mailbox/coe/mod.rs impl="impl<'maindevice, S> Coe<'maindevice, S>" name=sdo_write subst="self.subdevice.mailbox_counter()=>self.mailbox_counter()@@impl Into<SubIndex>=>SubIndex@@let sub_index = sub_index.into();=>" props=C15,C16
+/*@fn file=src/mailbox/coe/mod.rs impl="impl<'maindevice, S> Coe<'maindevice, S>" name=sdo_write subst="&self=>&mut self@@self.subdevice.mailbox_counter()=>self.mailbox_counter()@@impl Into<SubIndex>=>SubIndex@@let sub_index = sub_index.into();=>" props=C15,C16
     ensures
         value.packed().len() > 4 ==> r is Err,
         // Ok => an expedited download carrying exactly the value's bytes (zero padded to 4), its length, index and sub-index,
@@ -339,7 +346,7 @@ impl Coe {
     }
 @*/
 
-/*@fn file=src/mailbox/coe/mod.rs impl="impl<'maindevice, S> Coe<'maindevice, S>" name=sdo_read subst="self.subdevice.mailbox_counter()=>self.mailbox_counter()@@impl Into<SubIndex>=>SubIndex@@let sub_index = sub_index.into();=>" props=C15,C16 attr="#[verifier::loop_isolation(false)] #[verifier::allow_complex_invariants]"
+/*@fn file=src/mailbox/coe/mod.rs impl="impl<'maindevice, S> Coe<'maindevice, S>" name=sdo_read subst="&self=>&mut self@@self.subdevice.mailbox_counter()=>self.mailbox_counter()@@impl Into<SubIndex>=>SubIndex@@let sub_index = sub_index.into();=>" props=C15,C16 attr="#[verifier::loop_isolation(false)] #[verifier::allow_complex_invariants]"
     requires T::PACKED_LEN <= 0x7fff_ffff      // a destination type is not larger than isize::MAX bytes
     ensures
         // Ok(v) => an upload request for exactly (index, sub_index) with a counter in 1..=7 was answered, and
@@ -424,7 +431,7 @@ impl Coe {
 
 // the array helpers: the implicit `.into()` of the sub-index argument (first statement of sdo_write / sdo_read, removed there by
 // substitution) is spelled out at the call sites instead
-/*@fn file=src/mailbox/coe/mod.rs impl="impl<'maindevice, S> Coe<'maindevice, S>" name=sdo_write_array subst="impl AsRef<[T]>=>&[T]@@self.sdo_write(index, 0,=>self.sdo_write(index, SubIndex::from(0u8),@@self.sdo_write(index, i as u8,=>self.sdo_write(index, SubIndex::from(i as u8),@@values.iter().enumerate()=>enumerate_slice(values)" props=C15 attr="#[verifier::loop_isolation(false)]"
+/*@fn file=src/mailbox/coe/mod.rs impl="impl<'maindevice, S> Coe<'maindevice, S>" name=sdo_write_array subst="&self=>&mut self@@impl AsRef<[T]>=>&[T]@@self.sdo_write(index, 0,=>self.sdo_write(index, SubIndex::from(0u8),@@self.sdo_write(index, i as u8,=>self.sdo_write(index, SubIndex::from(i as u8),@@values.iter().enumerate()=>enumerate_slice(values)" props=C15 attr="#[verifier::loop_isolation(false)]"
     requires values@.len() <= 254          // sub-indices are 8 bit: at most 254 entries behind the count
     ensures
         // Ok => the count was cleared first, entry k went to sub-index k+1 (k = 0..n-1, in order), the count n was written last
@@ -437,7 +444,7 @@ impl Coe {
     decreases values@.len() - __it0.pos
 @*/
 
-/*@fn file=src/mailbox/coe/mod.rs impl="impl<'maindevice, S> Coe<'maindevice, S>" name=sdo_read_array subst="heapless::Vec<T, MAX_ENTRIES>=>CapVec<T, MAX_ENTRIES>@@heapless::Vec::new()=>CapVec::<T, MAX_ENTRIES>::new()@@self.sdo_read::<u8>(index, 0)=>self.sdo_read::<u8>(index, SubIndex::from(0u8))@@self.sdo_read::<T>(index, i)=>self.sdo_read::<T>(index, SubIndex::from(i))@@1..=len=>range_incl_u8(1, len)" incl_ranges=1 props=C15,C16 attr="#[verifier::loop_isolation(false)]"
+/*@fn file=src/mailbox/coe/mod.rs impl="impl<'maindevice, S> Coe<'maindevice, S>" name=sdo_read_array subst="&self=>&mut self@@heapless::Vec<T, MAX_ENTRIES>=>CapVec<T, MAX_ENTRIES>@@heapless::Vec::new()=>CapVec::<T, MAX_ENTRIES>::new()@@self.sdo_read::<u8>(index, 0)=>self.sdo_read::<u8>(index, SubIndex::from(0u8))@@self.sdo_read::<T>(index, i)=>self.sdo_read::<T>(index, SubIndex::from(i))@@1..=len=>range_incl_u8(1, len)" incl_ranges=1 props=C15,C16 attr="#[verifier::loop_isolation(false)]"
     requires T::PACKED_LEN <= 0x7fff_ffff
     ensures
         // Ok => as many entries as the count at sub-index 0 said (never more than the caller's capacity - a larger count is an
